@@ -133,6 +133,45 @@ def check_charge(case):
                 raise Violation("berg-luescher-wrong-winding", f"{bl!r}, expected {-case['Q']}")
 
 
+@st.composite
+def compact_case(draw):
+    """very compact winding +-1 textures on square cells, centred on a cell centre (odd n) or a vertex (even n):
+    calibrated domain in which the lattice charge is an integer on the unchanged tree (DESIGN section 6)"""
+    odd = draw(st.booleans())
+    n = draw(st.sampled_from([9, 11, 13] if odd else [8, 10, 12, 14]))
+    r100 = draw(st.integers(145, 300)) if odd else draw(st.integers(110, 300))
+    R = r100 / 100
+    # the disk (plus a ring of uniform cells) must stay clear of the mesh boundary
+    smax = int(max(0, n / 2 - 1.5 - R))
+    return {"n": n, "c": draw(st.sampled_from([1.0, 0.3, 2e-9, 5e3])), "Q": draw(st.sampled_from([1, -1])), "R": R,
+            "helicity": draw(st.sampled_from([0.0, 1.5707963267948966, 0.7, 3.0, 5.09, 2.2])),
+            "shift": [draw(st.integers(-smax, smax)), draw(st.integers(-smax, smax))],
+            "off": [draw(st.integers(-9, 9)), draw(st.integers(-9, 9))]}
+
+
+def check_compact(case):
+    import discretisedfield as df
+    import discretisedfield.tools as dft
+
+    n, c = case["n"], case["c"]
+    x = (np.arange(n) + 0.5 - n / 2 - case["shift"][0]) * c
+    y = (np.arange(n) + 0.5 - n / 2 - case["shift"][1]) * c
+    X, Y = np.meshgrid(x, y, indexing="ij")
+    R = case["R"] * c
+    r = np.hypot(X, Y)
+    th = np.where(r < R, np.pi * (1 - r / R), 0.0)
+    ph = case["Q"] * np.arctan2(Y, X) + case["helicity"]
+    m = np.stack([np.sin(th) * np.cos(ph), np.sin(th) * np.sin(ph), np.cos(th)], axis=-1)
+    p1 = [case["off"][0] * c, case["off"][1] * c]
+    f = df.Field(df.Mesh(p1=p1, p2=[p1[0] + n * c, p1[1] + n * c], n=(n, n)), nvdim=3, value=m)
+    q = dft.topological_charge(f, method="berg-luescher")
+    tag("cell-centred" if n % 2 else "vertex-centred")
+    if not np.isfinite(q) or abs(q - round(q)) > 1e-9:
+        raise Violation("berg-luescher-not-integer", f"compact winding {case['Q']} texture of radius {case['R']} cells: {q!r}")
+    if case["R"] >= 1.45 and round(q) != -case["Q"]:
+        raise Violation("berg-luescher-wrong-winding", f"{q!r}, expected {-case['Q']} (radius {case['R']} cells)")
+
+
 # --------------------------------------------------------------------------- Bloch points
 
 
@@ -145,7 +184,8 @@ def hedgehog_case(draw):
     vert = [draw(st.integers(3, k - 3)) for k in n]
     return {"n": n, "cell": cell, "vertex": vert, "jitter": [draw(st.sampled_from([0.0, 0.05, -0.1, 0.2])) for _ in range(3)],
             "sign": draw(st.sampled_from([1, -1])), "off": [draw(st.integers(-5, 5)) for _ in range(3)],
-            "sphere": draw(st.booleans()), "scale_len": draw(st.sampled_from([1.0, 8e5, 3e-3]))}
+            "sphere": draw(st.booleans()), "scale_len": draw(st.sampled_from([1.0, 8e5, 3e-3])),
+            "junk": draw(st.sampled_from([0, 0, 11, 12]))}
 
 
 def check_hedgehog(case):
@@ -166,6 +206,9 @@ def check_hedgehog(case):
         centre_idx = np.array(case["vertex"], float) + np.array(case["jitter"])
         rad = min(min(case["vertex"]), min(k - v for k, v in zip(n, case["vertex"])))
         valid = np.linalg.norm(idx - centre_idx, axis=-1) <= rad + 0.01
+        # what is stored outside the sample must not matter
+        junk = np.random.default_rng(case.get("junk", 0)).normal(size=m.shape) if case.get("junk", 0) else np.zeros_like(m)
+        m = np.where(valid[..., np.newaxis], m, junk)
         tag("spherical-sample")
     f = df.Field(mesh, nvdim=3, value=m, valid=valid)
     for direction in "xyz":
@@ -240,7 +283,8 @@ def demag_case(draw):
     e = draw(st.integers(-9, 0))
     c0 = draw(st.sampled_from([1.0, 0.5, 3.0])) * 10.0**e
     cell = [c0 * draw(st.sampled_from([1.0, 1.0, 2.0, 3.0, 0.5, 5.0, 1.5])) for _ in range(3)]
-    return {"n": n, "cell": cell, "M": draw(st.sampled_from([1.0, 8e5, -3.0])), "slow": draw(st.integers(0, 5)) == 0}
+    return {"n": n, "cell": cell, "M": draw(st.sampled_from([1.0, 8e5, -3.0])), "slow": draw(st.integers(0, 5)) == 0,
+            "perm": list(draw(st.permutations([0, 1, 2])))}
 
 
 def check_demag(case):
@@ -272,6 +316,21 @@ def check_demag(case):
         if not np.allclose(ref.array, tensor.array, rtol=1e-9, atol=1e-9):
             raise Violation("demag-implementations-differ", f"cells {cell}, n {n}")
         tag("implementations-compared")
+    # permuting the mesh axes permutes the tensor components (checks the off-diagonal elements, too)
+    perm = case.get("perm", [1, 2, 0])
+    mesh_p = df.Mesh(p1=(0, 0, 0), p2=[n[i] * cell[i] for i in perm], n=[n[i] for i in perm])
+    real_p = dft.demag_tensor(mesh_p).ifftn().array
+    comp = {(0, 0): 0, (1, 1): 1, (2, 2): 2, (0, 1): 3, (1, 0): 3, (0, 2): 4, (2, 0): 4, (1, 2): 5, (2, 1): 5}
+    inv = [perm.index(i) for i in range(3)]  # axis i of the original mesh is axis inv[i] of the permuted one
+    for (a, b), ci in comp.items():
+        if a > b:
+            continue
+        # original array indexed (x0, x1, x2); permuted array indexed (x_perm[0], x_perm[1], x_perm[2])
+        lhs = np.transpose(real[..., ci], perm)
+        rhs = real_p[..., comp[(inv[a], inv[b])]]
+        if np.max(np.abs(lhs - rhs)) > 1e-9:
+            raise Violation("demag-permutation-symmetry", f"cells {cell}, n {n}: component {(a, b)} of the tensor differs from "
+                                                          f"component {(inv[a], inv[b])} of the tensor of the mesh with axes {perm}")
     # demagnetising factors of the uniformly magnetised cuboid
     total = 0.0
     for ax in range(3):
@@ -347,6 +406,7 @@ def nt_charge(case):
 
 SUBS = [
     Sub("charge", check_charge, charge_case(), nontrivial=nt_charge, quick=60, thorough=600),
+    Sub("compact-texture", check_compact, compact_case(), quick=250, thorough=2500),
     Sub("hedgehog", check_hedgehog, hedgehog_case(), nontrivial=lambda c: len(set(c["cell"])) > 1 or c["sphere"], quick=24, thorough=300),
     Sub("angles", check_angles, angle_case(), nontrivial=lambda c: len(set(c["g"]["n"])) > 1, quick=300, thorough=2000),
     Sub("demag", check_demag, demag_case(), nontrivial=lambda c: len(set(c["cell"])) > 1, quick=60, thorough=500),
